@@ -79,6 +79,16 @@ def nestvKind : Elem V Hh where
   enc := fun v => v.toList
   dec := fun bs => if bs.length = 64 then some (ByteArray.mk bs.toArray) else none
 
+/-- a container without fields: SSZ length zero, root = the zero chunk. Not a legal SSZ type; kept
+to exercise the decoder's `ZeroLengthItem` branch (`sszDecodeItems`, `k = 0`). -/
+def unitKind : Elem V Hh where
+  pf := none
+  leafHash := fun _ => zero32
+  packHash := fun _ => zero32
+  fixedLen := some 0
+  enc := fun _ => []
+  dec := fun bs => if bs.isEmpty then some ByteArray.empty else none
+
 /-- variable-size element: an inner `List<u8, U8>` (0..8 bytes): root = mix_in_length(chunk, n). -/
 def varKind : Elem V Hh where
   pf := none
@@ -128,6 +138,7 @@ def kindOf (name : String) : Option (Elem V Hh) :=
   | "u256" => some (basicKind 32)
   | "h256" => some h256Kind
   | "cont" => some contKind
+  | "unit" => some unitKind
   | "nestv" => some nestvKind
   | "var" => some varKind
   | "nest" => some nestKind
